@@ -95,7 +95,7 @@ func cleanup(indexDir string, repos []uint32, now time.Time, shardMerging bool) 
 		// tombstone the compound shards so we don't just rm them.
 		simple := shards[:0]
 		for _, s := range shards {
-			if shardMerging && maybeSetTombstone([]shard{s}, repo) {
+			if maybeSetTombstone([]shard{s}, repo) {
 				continue
 			}
 
@@ -139,10 +139,17 @@ func cleanup(indexDir string, repos []uint32, now time.Time, shardMerging bool) 
 			_ = os.Chtimes(shard.Path, now, now)
 		}
 
-		if shardMerging && maybeSetTombstone(shards, repo) {
-			continue
+		// A compound shard also holds other repositories, so it can neither be
+		// moved to the trash nor removed on behalf of this one: tombstone the
+		// repository in it, whether or not it also has simple shards.
+		simple := shards[:0]
+		for _, s := range shards {
+			if maybeSetTombstone([]shard{s}, repo) {
+				continue
+			}
+			simple = append(simple, s)
 		}
-		moveAll(trashDir, shards)
+		moveAll(trashDir, simple)
 	}
 
 	// Remove .tmp files from crashed indexer runs-- for example, if an indexer
